@@ -1212,7 +1212,8 @@ class Timezone(Component):
             )
             transitions.extend(component_transitions)
 
-        transitions.sort()
+        # order the onsets by their UTC time: local time minus TZOFFSETFROM
+        transitions.sort(key=lambda transition: (transition[0] - transition[1],) + transition)
         transition_times = [
             transtime - osfrom for transtime, osfrom, _, _ in transitions
         ]
